@@ -525,6 +525,9 @@ class FnAnalysis:
                         if l != init or (i, p) in self.written:
                             key = (i, p)
                             self.out_cells[key] = self.out_cells.get(key, EMPTY) | l
+            for (i, p) in self.written:
+                if (i, p) not in self.out_cells and p not in st.get(("P", i), {}):
+                    self.out_cells[(i, p)] = EMPTY
             if 0 in self.pts:
                 for (r, _p) in self.pts[0]:
                     if isinstance(r, tuple) and r[0] in ("P", "PP"):
